@@ -802,14 +802,14 @@ theorem declareGlobals_loa {fs : List Frame} {st : Nat} (hs : Sorted fs st) (hh 
     cases hf : findDecl s0.frames v p with
     | some d =>
       rw [hl] at hf
-      obtain ⟨i1, i2, i3, i4⟩ := ih s0 ch (p + 2) h
+      obtain ⟨i1, i2, i3, i4⟩ := ih (s0.logLookup p) ch (p + 2) (by simpa using h)
       simp only [List.map_cons]
       refine ⟨i1, i2, ?_, ?_⟩
       · rw [i3]; simp [globalsAt, hf]
       · rw [i4]; simp [hf]
     | none =>
       rw [hl] at hf
-      obtain ⟨i1, i2, i3, i4⟩ := ih (s0.addDecl { name := v, pos := p, isLocal := false })
+      obtain ⟨i1, i2, i3, i4⟩ := ih ((s0.logLookup p).addDecl { name := v, pos := p, isLocal := false })
         (.decl { name := v, pos := p, isLocal := false } :: ch) (p + 2) (by simp [h, addKids])
       simp only [List.map_cons]
       refine ⟨by simpa using i1, by simpa using i2, ?_, ?_⟩
